@@ -106,3 +106,72 @@ def st1(P, C, only=None):
     if n == 0:
         raise core.AnalysisBroken("ST-1: none of the table-building operations found")
     return n
+
+
+ATTR_SOURCE = {"order": "get_order", "nknots": "get_nknots", "naxes": "get_ncoeffs", "extents0": "lower_extent", "extents1": "upper_extent", "knots": "get_knots"}
+
+
+def fc1(P, C):
+    """FC-1: the stacking constructor fills every per-dimension attribute for every dimension."""
+    C.rule("FC-1", "the stacking constructor builds a table of inputDim+1 dimensions in arrays obtained from the allocator (uninitialised): for "
+           "each per-dimension attribute — order, nknots, naxes, the knot vectors, both extents — a loop over all input dimensions "
+           "(0 <= i < inputDim, no branch around the store) takes entry i from the first input table's accessor for the SAME i, and a separate "
+           "store fills the entry of the new dimension (index inputDim)", floor=6)
+    fs_ = [g for g in P.fns("splinetable") if g.unit == "driver" and g.cls == ts.CLS and g.kind == "ctor" and len(g.params) >= 3]
+    if not fs_:
+        raise core.AnalysisBroken("FC-1: stacking constructor not found")
+    f = fs_[0]
+    # the local that counts the input dimensions: ndim = X + 1
+    X = None
+    for i in f.walk():
+        ap = ts.assign_parts(f, i)
+        if ap and ap[1] is not None and _txt(f, ap[0]) == "ndim":
+            m = re.match(r"^\((\w+)\+1\)$", _txt(f, ap[1]))
+            if m:
+                X = m.group(1)
+    if X is None:
+        raise core.AnalysisBroken("FC-1: `ndim = inputDim + 1` not found in the stacking constructor")
+    found = {k: {"loop": None, "new": None} for k in ATTR_SOURCE}
+    for i in f.walk():
+        ap = ts.assign_parts(f, i)
+        lhs = rhs = None
+        if ap and ap[1] is not None and f.nodes[i].get("op", "=") == "=":
+            lhs, rhs = _txt(f, ap[0]), f.strip(ap[1])
+        else:
+            cal = f.nodes[i].get("callee")
+            if cal and cal["name"] in ("copy_n", "copy") and len(f.args(i)) == 3 and re.match(r"^\(?&?knots\[(\w+)\]", _txt(f, f.args(i)[2])):
+                # the knot VALUES of dimension i: copy_n(first->get_knots(i), nknots[i], knots[i])
+                lhs = "knotvalues[%s]" % re.match(r"^\(?&?knots\[(\w+)\]", _txt(f, f.args(i)[2])).group(1)
+                rhs = f.strip(f.args(i)[0])
+        if lhs is None:
+            continue
+        m = re.match(r"^(order|nknots|naxes|knotvalues)\[(\w+)\]$", lhs) or re.match(r"^(extents)\[(\w+)\]\[([01])\]$", lhs)
+        if not m:
+            continue
+        attr = m.group(1)
+        key = {"knotvalues": "knots", "extents": "extents" + (m.group(3) if m.lastindex and m.lastindex >= 3 else "")}.get(attr, attr)
+        if key not in found:
+            continue
+        idx = m.group(2)
+        if idx == X:
+            found[key]["new"] = i
+            continue
+        L = next((a for a in f.ancestors(i) if f.k(a) == "ForStmt"), None)
+        if L is None:
+            continue
+        ln = f.nodes[L]
+        iv = f.nodes[ln["init"]]["decls"][0]["name"] if ln.get("init", -1) >= 0 and f.k(ln["init"]) == "DeclStmt" else None
+        init0 = iv is not None and f.nodes[f.strip(f.nodes[ln["init"]]["decls"][0].get("init", -1))].get("cv", f.nodes[f.strip(f.nodes[ln["init"]]["decls"][0].get("init", -1))].get("v")) == 0
+        full = iv == idx and init0 and _txt(f, ln["cond"]) == "(%s<%s)" % (iv, X) and _txt(f, ln["inc"]) == "(%s++)" % iv
+        uncond = not any(f.k(a) in ("IfStmt", "SwitchStmt", "ConditionalOperator") and L in set(f.ancestors(a)) for a in f.ancestors(i))
+        src = [x for x in f.walk(rhs) if (f.nodes[x].get("callee") or {}).get("name") == ATTR_SOURCE[key]]
+        same_i = bool(src) and all([_txt(f, a) for a in f.args(src[0])] == [iv] for _ in (0,)) and "front()" in _txt(f, rhs)
+        if full and uncond and same_i:
+            found[key]["loop"] = i
+    for key in sorted(found):
+        ok = found[key]["loop"] is not None and (found[key]["new"] is not None or key == "knots")
+        where = f.loc(found[key]["loop"]) if found[key]["loop"] is not None else f.where()
+        C.ob("FC-1", "stacking constructor", "filled:" + key, ok, where,
+             "entries 0..inputDim-1 from tables.front()->%s(i) in a full loop, entry inputDim stored separately" % ATTR_SOURCE[key] if ok else
+             "not every entry of %s is filled (loop over all input dimensions taking %s(i): %s; entry of the new dimension: %s) — the array comes "
+             "uninitialised from the allocator" % (key, ATTR_SOURCE[key], found[key]["loop"] is not None, found[key]["new"] is not None))
